@@ -207,6 +207,24 @@ def lambda_none(*a):
 
 def c09d(prog, R):
     r = R.rule("C09.d", "a blob file is dead iff all its bytes are unreferenced; dead files leave at the next version change", "B,P,O")
+    dead_rule(prog, r)
+    c09d_rest(prog, R, r)
+
+
+def dead_rule_shared(prog, R, rid):
+    """The dead-file test alone, for properties that only need `a live blob file is never judged dead` (C20, C08)."""
+    r = R.rule(rid, "a blob file is judged dead only when all of its bytes are unreferenced (exact integer test)", "B")
+    dead_rule(prog, r)
+    # every consumer of the verdict uses this predicate (no private re-implementation through the ratio)
+    users = sorted({c.fn.path for c in prog.all_calls("vlog::blob_file::BlobFile::is_dead")})
+    stale = sorted({c.fn.path for c in prog.all_calls("vlog::blob_file::BlobFile::is_stale")})
+    r.check(len(users) >= 3, "is_dead|consulted by prune_dead, the finishers and the rewrite picker", "is_dead has %d callers" % len(users), "", str(users))
+    drops = [u for u in stale if "prune" in u or "finish" in u or "with_dropped" in u]
+    r.check(not drops, "is_stale|the f32 staleness ratio never decides a drop", "a dropping path consults the floating-point staleness ratio: %s" % drops, "", str(stale))
+    r.floor(3)
+
+
+def dead_rule(prog, r):
     f = prog.need("vlog::blob_file::BlobFile::is_dead")
     h = prog.hir.get(f.path)
     cmps = [n for n in hir_walk(h["body"]) if n.get("k") == "bin" and n["op"] in ("==", "!=", "<", "<=", ">", ">=")]
@@ -225,6 +243,9 @@ def c09d(prog, R):
     r.check(ok and len(cmps) == 1, "%s|stale.bytes == meta.total_uncompressed_bytes" % f.path,
             "the dead-file test is not `all uncompressed bytes are stale` (files with live blobs could be dropped, or dead "
             "ones kept forever)", f.where(), "; ".join(desc))
+
+
+def c09d_rest(prog, R, r):
     # both finishers collect dead blob files of the current version before upgrading
     for name in (A.STD_FINISH, A.RELOC_FINISH):
         g = prog.need(name)
